@@ -1,20 +1,33 @@
-from cacheprops import CACHE_TB, CACHE_ASSUMPTIONS, ca_component
+from cacheprops import CACHE_TB, CACHE_ASSUMPTIONS, ca_component, MD_COMPONENT, MD_TB
 
 import facts
 
 ID = "C14"
+
+# the metadata object itself (metadata/metadata.go; model lean/Gnmi/Model/Metadata.lean): what Clear / ResetEntry do
+# to every registered entry, for every registry contents and every history of operations
+META_THEOREMS = ["Gnmi.C14Meta." + t for t in [
+    "clear_initial", "clear_bool_false", "clear_int_zero", "clear_int_deleted", "clear_str_default", "clear_str_deleted",
+    "clear_str_keep", "clear_shadowed", "clear_eq_resetEntries", "clear_any_order", "clear_idempotent",
+    "resetEntry_idempotent", "clear_eq_new", "history_clear_eq_new", "keep_survives", "serverName_survives",
+    "registerServerName_keep", "step_frame", "run_frame", "frame_getInt", "frame_getBool", "frame_getStr", "frame_path",
+    "get_unregistered", "set_unregistered", "resetEntry_unregistered", "get_after_set", "addInt_sums",
+    "getInt_after_setInt", "getInt_after_reset", "getInt_after_delete", "equiv_trace", "clear_abs",
+    "cache_reset_keeps_serverName", "cache_addWith_sinv", "cache_addWith_get"]]
 PROP = {
-    "modules": ["Gnmi.Props.C14", "Gnmi.Props.C03Sim"],
+    "modules": ["Gnmi.Props.C14", "Gnmi.Props.C03Sim", "Gnmi.Props.C14Meta"],
     "theorems": ["Gnmi.C14." + t for t in [
         "frame", "query_frame", "step_cfg", "remove_forgets", "remove_event_covers", "reset_clears",
         "reset_event_covers", "dropRoots_events", "reset_initial_metadata"]] + ["Gnmi.Cache.reset_ok", "Gnmi.Cache.step_sinv",
-        "Gnmi.Cache.reset_flags", "Gnmi.Cache.generateMetaUpdates_flags", "Gnmi.Feed.reset_sim", "Gnmi.C03.cache_replay_unknown_empty"],
-    "components": [ca_component("c14")],
+        "Gnmi.Cache.reset_flags", "Gnmi.Cache.generateMetaUpdates_flags", "Gnmi.Feed.reset_sim", "Gnmi.C03.cache_replay_unknown_empty"] + META_THEOREMS,
+    "components": [ca_component("c14"), MD_COMPONENT],
     "monitor": "spec", "level": "proof",
-    "trusted_base": CACHE_TB, "assumptions": CACHE_ASSUMPTIONS + [
+    "trusted_base": CACHE_TB + MD_TB, "assumptions": CACHE_ASSUMPTIONS + [
         "Reset returns the counters and the sync/connected flags of the metadata *object* to their initial values; the meta/... leaves "
         "show them after the refresh provided the clock reading is not older than the stored metadata leaves (non-decreasing clock)",
         "ending of single-target subscriptions on Remove is decided with the subscribe model (C04/C05 sender step isTargetDelete)",
+        "metadata objects are created by metadata.New (a zero metadata.Metadata{} has nil maps and panics on every write); the "
+        "package-level registries are changed from one goroutine (the package documents them as not thread-safe)",
     ],
     "manifest": {
         "level_text": "Lean 4 theorems over the multi-target cache model, for every reachable state: frame (no API call addressed to T changes "
@@ -24,7 +37,18 @@ PROP = {
                       "reset_initial_metadata (not synced, not connected, no address, no connect error, counters zero: the refresh inside Reset writes back "
                       "exactly what it read), and — from the whole-cache feed simulation of C03 — a subscriber-side replica built from the announced "
                       "events alone follows Reset and Remove exactly (Feed.reset_sim, cache_replay_unknown_empty: nothing of a removed target survives). "
-                      "Tied to cache/cache.go by the ca correspondence with 1-3 targets, overlapping path sets and interleaved lifecycle calls.",
+                      "Tied to cache/cache.go by the ca correspondence with 1-3 targets, overlapping path sets and interleaved lifecycle calls "
+                      "(caches created with and without WithServerName: the serverName string registered with ResetAction Keep survives Reset in "
+                      "Metadata(), in the stored meta/serverName leaf and in the announced events). The metadata object Reset clears is modelled "
+                      "on its own (Model/Metadata.lean, arm by arm: registries, New, ResetEntry, Clear, Add/Set/Get with their error arms) with "
+                      "theorems for every registry contents and every history of operations: clear_initial (after Clear every registered bool "
+                      "reads false, every counter 0, delete-on-reset ints and strings are unset, default strings are empty, a Keep string reads "
+                      "exactly what it read before), clear_eq_resetEntries / clear_any_order (Clear = ResetEntry on every registered entry in any "
+                      "order), clear_idempotent, history_clear_eq_new (whatever happened before, after Clear every non-Keep name reads as on New()), "
+                      "keep_survives (a Keep string survives any number of Clear/ResetEntry), step_frame, the error arms, addInt_sums, clear_abs "
+                      "(under the cache's registries Clear is exactly the cache model's md := Meta.clear, server name untouched); tied to "
+                      "metadata/metadata.go by the md correspondence (exhaustive depth-3 scope over 18 operations + seeded random histories with "
+                      "register/unregister calls in the middle, raw value maps observed).",
         "level_note": "Trusted: Lean kernel; model validated by the ca correspondence; Go runtime. Assumes non-empty target names, serialised writers.",
         "technique": "Lean 4 proof (frame lemmas over the target map, invariant-based Reset theorem) + model/implementation correspondence",
     },
